@@ -46,9 +46,9 @@ PANEL = [
 ]
 
 
-def run_pair(wa, wb, ks=None, max_k=None, offset=0):
+def run_pair(wa, wb, ks=None, max_k=None, offset=0, slice_=None, of=None):
     env = dict(os.environ)
-    spec = {'a': wa, 'b': wb, 'ks': ks, 'max_k': max_k, 'offset': offset}
+    spec = {'a': wa, 'b': wb, 'ks': ks, 'max_k': max_k, 'offset': offset, 'slice': slice_, 'of': of}
     out = subprocess.run([sys.executable, '-B', '-W', 'ignore', '-m', 'mxv.sched', json.dumps(spec)], env=env,
                          capture_output=True, text=True, timeout=3000)
     if out.returncode != 0 or not out.stdout:
@@ -98,9 +98,15 @@ def draw_workload(data, el):
     return w
 
 
+PANEL_SLICES = 8
+
+
 def shards(ctx):
     n = 12 if ctx.quick else 48
-    return [{'mode': 'panel', 'index': i} for i in range(len(PANEL))] + [{'mode': 'drawn', 'index': i} for i in range(n)]
+    # thorough: every line of every panel pair; a pair's lines are dealt round-robin to PANEL_SLICES shards
+    of = 2 if ctx.quick else PANEL_SLICES
+    return [{'mode': 'panel', 'index': i, 'slice': j, 'of': of} for i in range(len(PANEL)) for j in range(of)] + \
+        [{'mode': 'drawn', 'index': i} for i in range(n)]
 
 
 def run_shard(ctx, shard, acc):
@@ -118,9 +124,10 @@ def run_shard(ctx, shard, acc):
     groups = sorted(g for g, ts in group_users.items() if len(ts) >= 2)
     per = 2 if ctx.quick else 6     # Hypothesis' first example is always the minimal one; the following are drawn
 
-    def explore_pair(wa, wb, rel):
+    def explore_pair(wa, wb, rel, slice_=None, of=None):
         # quick tier: the fixed panel is explored exhaustively up to 3200 lines per pair (three of the four pairs completely), drawn pairs are thinned to 400 schedules; thorough: everything exhaustively
-        res = run_pair(wa, wb, max_k=(400 if rel != 'panel' else 3200) if ctx.quick else None, offset=ctx.seed)
+        res = run_pair(wa, wb, max_k=(400 if rel != 'panel' else 3200 // (of or 1)) if ctx.quick else None, offset=ctx.seed,
+                       slice_=slice_, of=of if (of or 1) > 1 else None)
         acc.evaluations += res['ran'] - 1
         acc.case({'a': wa, 'b': wb, 'schedules': res['ran'], 'first_use_schedules': res['nontrivial']}, True,
                  res['ran'])
@@ -137,7 +144,7 @@ def run_shard(ctx, shard, acc):
 
     if shard['mode'] == 'panel':
         wa, wb = PANEL[shard['index']]
-        f = explore_pair(wa, wb, 'panel')
+        f = explore_pair(wa, wb, 'panel', shard.get('slice'), shard.get('of'))
         if f:
             acc.fail(f, raise_=False)
         return
